@@ -230,6 +230,42 @@ def run_case(c):
     return res
 
 
+def run_frac(c):
+    """times that are not whole numbers of samples (eighths of a sample at a dyadic rate: exact in doubles): "setting or adding time moves the
+    clock to exactly the requested instant", tracked here in eighths and read back through the complex probe (imaginary part = evaluation time)"""
+    from fractions import Fraction
+    sr = c["sr"]
+    kw = dict(sample_rate=sr, fch1=0.0, ascending=True, t_start=c["t0_8"] / 8.0 / sr, seed=1)
+    if c["antenna"]:
+        obj = V.Antenna(num_pols=2, **kw); streams = obj.streams
+    else:
+        obj = V.DataStream(**kw); streams = [obj]
+    for s in streams:
+        s.add_signal(lambda ts: 1j * ts)
+    clock = Fraction(c["t0_8"], 8)
+    fails = []
+    for k, op in enumerate(c["ops"]):
+        if op[0] == "get":
+            v = obj.get_samples(op[1])
+            rows = [np.asarray(v[0][p]) for p in range(2)] if c["antenna"] else [np.asarray(v)]
+            want = np.array([float((clock + i) / Fraction(sr)) for i in range(op[1])])
+            for p, row in enumerate(rows):
+                if not np.array_equal(np.imag(row), want):
+                    fails.append(["clock-fraction", "op %d: request of %d samples evaluated from t = %r s, the clock stands at %r s (%s samples) after %s"
+                                  % (k, op[1], float(np.imag(row)[0]), float(want[0]), clock, c["ops"][:k])])
+                    return dict(fails=fails)
+            clock += op[1]
+        elif op[0] == "add_time":
+            obj.add_time(op[1] / 8.0 / sr); clock += Fraction(op[1], 8)
+        else:
+            obj.set_time(op[1] / 8.0 / sr); clock = Fraction(op[1], 8)
+        for s in streams + ([obj] if c["antenna"] else []):
+            if float(s.t_start) != float(clock / Fraction(sr)):
+                fails.append(["clock-fraction", "op %d %s: clock reads %r s, expected exactly %r s" % (k, op, float(s.t_start), float(clock / Fraction(sr)))])
+                return dict(fails=fails)
+    return dict(fails=fails)
+
+
 def env_check():
     a = np.random.default_rng(5); b = np.random.default_rng(5)
     x = np.concatenate([a.standard_normal(7), a.standard_normal(11)])
@@ -238,6 +274,9 @@ def env_check():
 
 def main():
     payload = json.load(sys.stdin)
+    if payload.get("mode") == "frac":
+        json.dump(dict(env_ok=True, results=[run_frac(c) for c in payload["cases"]]), open(sys.argv[1], "w"))
+        return
     out = dict(env_ok=env_check(), results=[run_case(c) for c in payload["cases"]])
     json.dump(out, open(sys.argv[1], "w"))
 
